@@ -217,6 +217,11 @@ public:
   z_number() : e(ctx().int_val(0)) {}
   z_number(int64_t n) : e(ctx().int_val((int64_t)n)) {}
   z_number(const z3::expr &x) : e(x) {}
+  // a moved-from real z_number is a valid 0; never leave a null term behind
+  z_number(const z_number &o) : e(o.e) {}
+  z_number(z_number &&o) : e(o.e) { o.e = ctx().int_val(0); }            // as lib/bignums.cpp: source becomes 0
+  z_number &operator=(const z_number &o) { e = o.e; return *this; }
+  z_number &operator=(z_number &&o) { if (this != &o) { z3::expr t = e; e = o.e; o.e = t; } return *this; } // as lib/bignums.cpp: swap
   z_number(const std::string &s, unsigned base = 10) : e(ctx().int_val(0)) {
     if (base != 10) throw sxe::abort_path{"z_number-string-base"};
     e = ctx().int_val(s.c_str());
